@@ -61,6 +61,15 @@ CHECKS["C13"] = ("DESIGN §4 C13",
     "every program of the bounded grammar is integrated by the real Field/Form machinery and compared entry-wise with the built-in operator combination",
     "trusted: the built-in operators as reference for symmetric forms (C01/C02/C07 check them independently); own Kelvin-Mandel conversion; tolerance 1e-12")
 
+CHECKS["C12"] = ("DESIGN §4 C12",
+    "exhaustive enumeration of FeArray terms over a grammar: all shapes (Ne,nPg,d) in {1,2,3}^3 plus d=6, operand kinds (FeArray rank 0/1/2/4, plain array, scalar, Field), every operator / reducer / axis / operand order at depth 1 and, merged by (kind, shape, dtype, layout, operator family), at depth 2",
+    "every term of the bounded grammar is evaluated by the real FeArray dispatch and by explicit per-(e,p) loops; shape collisions Ne == nPg == d and size-1 axes are all enumerated",
+    "trusted: numpy on tensor slices; states of depth-1 results merged by the attributes the dispatch reads; typing of axis-permuting numpy functions is left open by the property and only their values are compared")
+CHECKS["C20"] = ("DESIGN §4 C20",
+    "exhaustive enumeration of every part count Nproc = 1..Ne (+ the refused Ne+1) for 8 (quick) / 27 (thorough) gmsh meshes, and of all lists of <= 3 meshes over {A, shifted onto a shared edge/face, disjoint, copy} x map x merge options",
+    "every part count the partitioner accepts is generated through the library's own Mesher and every invariant (single ownership, ghost layer = elements touching owned nodes, numbering kept, reproducibility, owned-row completeness of K/M/F, energy and reaction sums, Merge mapping) is checked on the real objects",
+    "trusted: gmsh/METIS as environment; MPI execution itself is not available (serial emulation through the per-part meshes)")
+
 PENDING_REASON = "not claimed yet: the bounded-exhaustive check for this property is designed (DESIGN.md §4) but not built in the committed tree"
 
 
